@@ -60,11 +60,13 @@ def run : Runner
   | "bechenc", [_, hrp, d], _ => do
     let hrp ← bytes? hrp; let d ← bytes? d
     pure { model := match Bech32.Encode hrp d with | some s => "ok:" ++ Bytes.tok s | none => "err" }
-  | "bechdec", [_, s], _ => do
+  | "bechdec", [_, s], impl => do
     let s ← bytes? s
+    -- C07 "reject foreign characters": an accepted string has only printable ASCII (33..126) bytes
+    let prop := if impl.startsWith "ok:" && s.any (fun b => b < 33 || b > 126) then "violated:foreign character accepted" else "-"
     pure { model := match Bech32.Decode s with
       | .ok (h, d) => s!"ok:{Bytes.tok h}:{Bytes.tok d}"
-      | .error _ => "err" }
+      | .error _ => "err", prop }
   -- purity probe: the harness reports whether any byte reachable from the arguments changed
   | "pure", _, impl => pure { model := "unchanged", prop := if impl == "unchanged" then "ok" else "violated:argument memory modified" }
   | _, _, _ => none
